@@ -33,6 +33,24 @@ def step (line : String) : String :=
     match parseRat? s, parseRat? dt, parseInt? k0, parseInt? k with
     | some s, some dt, some k0, some k => showRat (tebd_time s dt k0 k)
     | _, _, _, _ => "bad-op"
+  | "histtebd" :: s :: dt :: ks :: es =>
+    -- PtTebd: targets are end steps; steps are counted from the constructor's start step
+    match parseRat? s, parseRat? dt, parseInt? ks, rats es with
+    | some s, some dt, some ks, some es =>
+      let st := computeAll (fun (j : Int) (t : Rat) => tebd_compute_steps ks (ks + j) t.floor)
+                  (fun (j : Int) => tebd_time s dt ks (ks + j)) es
+      let k := match st.step with | some k => toString (ks + k) | none => "none"
+      s!"{k};{showRats st.dyn.times}"
+    | _, _, _, _ => "bad-op"
+  | ["resolve", ns, m] =>
+    let opt (w : String) : Option (Option Int) :=
+      if w == "none" then some none else (parseInt? w).map some
+    match opt ns, opt m with
+    | some ns, some m =>
+      match cd_resolve_num_steps ns m with
+      | .ok n => s!"ok {n}"
+      | .error e => s!"error {e}"
+    | _, _ => "bad-op"
   | "hist" :: api :: s :: dt :: es =>
     match parseRat? s, parseRat? dt, rats es with
     | some s, some dt, some es =>
